@@ -638,7 +638,10 @@ class DoctestParser:
             # to fix #108
             # Only iterate through non-empty lines otherwise tokenize will stop short
             # TODO: we probably could just save the tokens if we got them earlier?
-            iterable = (line for line in exec_source_lines if line)
+            # Only the final statement is evaluated (it is split into its own
+            # part), so only a semicolon in its lines matters.
+            final_start = ps1_linenos[-1] if ps1_linenos else 0
+            iterable = (line for line in exec_source_lines[final_start:] if line)
             def _readline():
                 return next(iterable)
             # We cannot eval a statement with a semicolon in it
